@@ -162,7 +162,23 @@ func vSmallXfer(rc *runCtx, timeouts []int) (*vXferConfig, *xferOpts, vSnap) {
 			cfg.protocol = 0
 		}
 	}
+	// "pipelined" flavour: one incompressible file large enough, with a small buffer, for the sender to leave
+	// the one-chunk-at-a-time probing phase and run with a full window of unacknowledged chunks
+	pipelined := !resume && tp.Bool("f.pipelined", 250)
+	if pipelined {
+		cfg.bufSize = []string{"1K", "4k"}[tp.Draw("f.pbuf", 2)]
+	}
 	spec := vGenSources(rc, src, 3, cfg.dirMode, 40000, !cfg.overwrite)
+	if pipelined {
+		big := tp.Bytes("f.pbig", 40000+tp.Draw("f.pbigsz", 90000))
+		p := spec.paths[0]
+		if st, err := os.Stat(p); err == nil && st.IsDir() {
+			p = filepath.Join(p, "zz-big.bin")
+			spec.files++
+		}
+		vWriteFile(p, big)
+		rc.res.Scenario["pipelined"] = len(big)
+	}
 	if cfg.overwrite && (tp.Bool("f.preexist", 500) || resume) {
 		// some destination content to resume over (hash exchange phase)
 		for _, p := range spec.paths {
@@ -365,9 +381,30 @@ func vScenarioC11(rc *runCtx) {
 		}
 		return fr.fire()
 	}
+	// the user may open the stop/continue question and choose "continue" while a read is already waiting
+	// on the silent peer: the deadline moves, it does not disappear
+	pauseAfter := tp.Bool("c11.pause", 200)
+	pauseDelay := time.Duration(tp.Draw("c11.pausedelay", 900)) * time.Millisecond
+	pauseLen := time.Duration(50+tp.Draw("c11.pauselen", 1500)) * time.Millisecond
+	var resumedAt time.Duration
 	mark := func() {
 		faultAt = w.Now()
 		rc.fault(kind)
+		if pauseAfter && (strings.HasPrefix(kind, "silent") || strings.HasPrefix(kind, "stall")) {
+			x.paused = true
+			w.Go("user", x.client, func() {
+				verifsim.Sleep(pauseDelay)
+				if !x.filter.IsTransferringFiles() {
+					return
+				}
+				rc.fault("pause-then-continue")
+				x.kbd.Write([]byte{0x03})
+				verifsim.Sleep(pauseLen)
+				x.typeKeys("jj", 20*time.Millisecond)
+				x.typeKeys("\r", 20*time.Millisecond)
+				resumedAt = w.Now()
+			})
+		}
 	}
 	hop := tp.Draw("c11.hop", len(x.up))
 	up, down := x.up[hop], x.down[hop]
@@ -495,6 +532,10 @@ func vScenarioC11(rc *runCtx) {
 	if stallEnd > ref {
 		ref = stallEnd
 	}
+	if resumedAt > ref {
+		ref = resumedAt
+	}
+	rc.res.Scenario["resumed_at"] = resumedAt.String()
 	// before the client has the CFG it uses the default 20 s timeout
 	tb := T
 	if tb < 20*time.Second {
